@@ -1,10 +1,45 @@
 """Per-property wording for MANIFEST.json."""
 NOTE = ("Trusted: the Go toolchain, rapid, the harness's own renderer/oracles (DESIGN.md section 3). Exploration only: no counterexample among "
         "the generated cases, whose number, class histogram and samples are in the evidence file; it is not a proof of absence.")
+NOTE_EX = NOTE + " Sweeps marked exhaustive in the evidence visit every id of the shipped tables, so for the shipped data they are complete."
+
+
+def c(ref, technique, text, note=NOTE):
+    return dict(ref="DESIGN.md section 4 " + ref, technique=technique, text=text, note=note)
+
+
 CHECKS = {
-    "C01": dict(ref="DESIGN.md section 4 C01", technique="property-based testing (rapid): generated expression trees x allowed lists against an independent Boolean evaluation oracle; shrunk counterexample becomes the replay file",
-                text="Generated expression trees of every shape and term kind are rendered to text and Satisfies is compared with an independent Boolean evaluation of the tree over per-term verdicts; thousands (quick) to hundreds of thousands (thorough) of cases. Right level: the property quantifies over an infinite product space with a cheap exact oracle.", note=NOTE),
-    "C03": dict(ref="DESIGN.md section 4 C03", technique="property-based testing and fuzzing: generated token sequences, exhaustive prefixes/deletions/insertions per generated expression, raw bytes, size families, native go fuzzing (thorough); oracle: recover() sees nothing",
-                text="Every entry point is driven with token sequences, every prefix / single-token deletion / insertion of generated valid expressions, raw and invalid-UTF-8 bytes, nil/empty slices and very long / deeply nested inputs, each under recover(); thorough adds coverage-guided fuzzing. Right level: 'never panics' is a validity predicate over all byte strings.", note=NOTE),
+    "C01": c("C01", "property-based testing (rapid): generated expression trees x allowed lists against an independent Boolean evaluation oracle; shrunk counterexample becomes the replay file",
+             "Generated expression trees of every shape and term kind are rendered to text and Satisfies is compared with an independent Boolean evaluation of the tree over per-term verdicts; thousands (quick) to hundreds of thousands (thorough) of cases. Right level: the property quantifies over an infinite product space with a cheap exact oracle."),
+    "C02": c("C02", "property-based testing: exhaustive in-family pair sweep + rapid-generated term pairs against a reference matcher (differential), plus symmetry and reflexivity relations",
+             "Every ordered pair of ids inside every table family in every form, every listed id against every listed id (thorough), and generated pairs incl. exceptions and references are checked against a reference implementation of the documented matching rules read from the shipped table.", NOTE_EX),
+    "C03": c("C03", "property-based testing and fuzzing: generated token sequences, exhaustive prefixes/deletions/insertions per generated expression, raw bytes, size families, native go fuzzing (thorough); oracle: recover() sees nothing",
+             "Every entry point is driven with token sequences, every prefix / single-token deletion / insertion of generated valid expressions, raw and invalid-UTF-8 bytes, nil/empty slices and very long / deeply nested inputs, each under recover(); thorough adds coverage-guided fuzzing. Right level: 'never panics' is a validity predicate over all byte strings."),
+    "C04": c("C04", "property-based testing (rapid): generated strings and lists; oracle = agreement relations between ValidateLicenses, ExtractLicenses and Satisfies",
+             "Generated lists mixing valid, invalid, compound and raw strings; the three entry points must agree on validity, report exactly the invalid elements in order, and return errors exactly for invalid input with false/nil results."),
+    "C05": c("C05", "property-based testing: weighted random and near-valid token sequences plus exhaustive enumeration of all short sequences, against a reference recogniser of the documented grammar",
+             "ValidateLicenses' verdict is compared with a reference recogniser over generated token sequences (random, single/double edits of valid expressions, and ALL sequences up to length 4/5 over one representative per token class). The finite X++ class of known finding F11 is enumerated separately.", NOTE_EX),
+    "C06": c("C06", "property-based testing: homomorphism / fix-point / self-satisfaction relations over generated trees, and an exhaustive single-term sweep over every listed id x form x case",
+             "ExtractLicenses of a generated tree must equal the union of the extractions of its terms, without duplicates, each output a fix-point and the list self-satisfying; every listed id in every form and case must come back in list casing with '+' and exception preserved (checked behaviourally).", NOTE_EX),
+    "C07": c("C07", "property-based testing (rapid): metamorphic relations between an allowed list and its permutations / duplications / re-spellings / extensions",
+             "For generated (expression, list) pairs the verdict must be invariant under permutation, duplication and re-spelling of entries and monotone under extension."),
+    "C08": c("C08", "property-based testing: metamorphic substitution of equivalent spellings, swept over every listed id, both pairs and all contexts",
+             "For every listed id X, X+ / X-or-later and X / X-only are swapped as expression term, allowed entry and inside a compound expression against every id of X's family with and without '+', own spellings and unrelated ids, with and without exceptions; validity and verdict must not change.", NOTE_EX),
+    "C09": c("C09", "property-based testing: exhaustive case-variant sweep over every listed id and exception in every position, plus rapid-generated trees spelled twice (metamorphic)",
+             "Every listed license and exception id in lower, upper and seeded mixed case in every position must behave exactly like the list spelling, and ExtractLicenses must report the list casing; generated trees and lists are compared between list casing and re-cased spellings.", NOTE_EX),
+    "C10": c("C10", "property-based testing (rapid): metamorphic Boolean-algebra rewrites (commutativity, associativity, idempotence, absorption, distribution, factoring) and the compositional law; no reference evaluator involved",
+             "A generated tree and its image under 1-6 generated sound rewrites must get the same verdict under generated lists and the same ExtractLicenses set when the rewrites keep the term set; Satisfies('(E) AND/OR (F)') must equal the conjunction/disjunction of the parts."),
+    "C11": c("C11", "property-based testing over a finite domain: exhaustive enumeration of the family table and the id lists against a structural validity predicate and the natural version order parsed from the ids",
+             "Every table entry is checked structurally (listed, one position, ascending versions, complete families) and every in-family pair and every table id against every listed id of other families is checked behaviourally against the natural order of the version numbers, independent of the table index.", NOTE_EX),
+    "C12": c("C12", "differential testing and property-based testing: independent JSON reader vs shipped tables, byte-for-byte regeneration in a scratch directory, the generator run on rapid-generated SPDX-shaped documents against a reference renderer, exhaustive table invariants",
+             "The three id tables are compared element for element with cmd/*.json, the generator is rebuilt and re-run to reproduce the committed files byte for byte, it is exercised on generated documents it has never seen, and every id is validated in and out of its proper position.", NOTE_EX),
+    "C13": c("C13", "stateful property-based testing (rapid-generated call histories with repeats and concurrent bursts, shrunk as one value) under the Go race detector, with fd-level stdout/stderr capture and argument sentinels",
+             "Generated histories of calls, repeats and bursts of goroutines sharing the argument slices; invariants: arguments (incl. spare capacity) untouched, no bytes on fd 1/2, every result equal to the first result of the same call in any order and under concurrency, race detector silent.",
+             NOTE + " Schedules are not controlled: the race detector covers happens-before violations on executed paths only."),
+    "C14": c("C14", "property-based testing over size-parameterised input families and rapid-generated short trees; oracle: measured growth law of allocation (runtime.MemStats) and CPU time plus absolute bounds for short inputs",
+             "Twenty input families are escalated in size for each entry point; the local growth exponent of allocation and CPU time over input length must stay polynomial, and any call on <= 512 bytes must stay under 256 MB / 10 s CPU; escalation stops at the first breach so an exponential tree is caught at megabytes.",
+             NOTE + " Cost is observed as allocation and CPU time, not proven asymptotically; thresholds are growth-based, not calibrated to today's constants."),
+    "C15": c("C15", "property-based testing (rapid): generated prefix ++ bad identifier ++ suffix inputs; oracle: the cited offset and lexeme are true of the caller's string",
+             "Inputs with an unknown or missing identifier after generated clean prefixes (incl. -or-later rewrites and folded '+') go to Satisfies (both positions) and ExtractLicenses; the error must cite an in-range offset at which the whole lexeme / the end of a ...Ref- prefix is found."),
 }
 NOT_YET = {}
